@@ -83,6 +83,7 @@ class Check:
         s.seed = int(os.environ.get('VERIF_SEED', '1'))
         base = os.environ.get('VERIF_SCRATCH') or os.environ.get('TMPDIR') or '/tmp'
         s.dir = tempfile.mkdtemp(prefix='vf.%s.' % prop, dir=base)
+        os.environ['VF_TMP'] = s.dir      # real-build harness binaries put their temporary input files here (removed with the scratch directory)
         s.t0 = time.time(); s.units = {}; s.results = []; s.violations = []; s.notes = []; s.undecided = []
         s.known, s.fixed = known_findings(prop)
         s.hdir = os.path.join(VERIF, 'harness', prop)
